@@ -33,7 +33,7 @@ def run(model, res, tier):
     res.assumptions += ['A3 ply: LRParser.parse keeps its stacks in locals and falls back to lex.lexer when lexer= is not given']
     res.trusted += ['CPython ast', 'ply 3.11 source as read', 'hxsa/effects.py ownership models']
     _r1(model, res, c)
-    _r2(model, res, c)
+    instance_state(model, res, c, 'R2')
     _r3(model, res, c)
     _r4(model, res, c)
     n = purity.check_region(res, c, 'R5', None, c.reach, 'evaluation')
@@ -91,7 +91,7 @@ def _persistent_classes(c):
     return out
 
 
-def _r2(model, res, c):
+def instance_state(model, res, c, R='R2'):
     cg = c.cg
     eff = c.effects
     pcs = _persistent_classes(c)
@@ -126,17 +126,17 @@ def _r2(model, res, c):
         site = '%s.%s' % (cname, attr)
         if not born:
             # Dispatcher registry etc. are also assigned in __init__; a miss means class-level or never created
-            res.ob('R2', site, 'mutated through self in %s' % fmt(ev.key), False, 'never assigned in an __init__')
-            res.violation('R2', '%s:attr-not-born-in-init' % site, ev.where(),
+            res.ob(R, site, 'mutated through self in %s' % fmt(ev.key), False, 'never assigned in an __init__')
+            res.violation(R, '%s:attr-not-born-in-init' % site, ev.where(),
                           'attribute %s is mutated through self (%s) but is not created in __init__: it lives on the class and is '
                           'shared by every instance' % (site, ev.detail), func=ev.key[1])
             continue
         for b in born:
             v = b.value
             ok = v is not None and not v.has('state')
-            res.ob('R2', site, 'born in %s as %s' % (fmt(b.key), b.detail), ok, repr(v))
+            res.ob(R, site, 'born in %s as %s' % (fmt(b.key), b.detail), ok, repr(v))
             if not ok:
-                res.violation('R2', '%s:attr-aliases-shared-object' % site, b.where(),
+                res.violation(R, '%s:attr-aliases-shared-object' % site, b.where(),
                               'instance attribute %s is initialised with an object shared between instances (%s): registrations on one '
                               'parser become visible to every other parser' % (site, ', '.join(v.states()) if v is not None else '?'),
                               func=b.key[1])
@@ -149,9 +149,9 @@ def _r2(model, res, c):
             v = b.value
             bad = v is not None and v.has('state') and not all(s.startswith('hotxlfp.formulas.error.') for s in v.states())
             # class-level immutable constants re-exposed on the instance are fine; mutable shared containers are not
-            res.ob('R2', '%s.%s' % (cname, attr), 'initialised in %s' % fmt(b.key), not bad, repr(v))
+            res.ob(R, '%s.%s' % (cname, attr), 'initialised in %s' % fmt(b.key), not bad, repr(v))
             if bad:
-                res.violation('R2', '%s.%s:attr-aliases-shared-object' % (cname, attr), b.where(),
+                res.violation(R, '%s.%s:attr-aliases-shared-object' % (cname, attr), b.where(),
                               'instance attribute %s.%s is initialised with a shared object (%s); every parser holds the same one'
                               % (cname, attr, ', '.join(v.states())), func=b.key[1])
     # (c) constructing / registering writes no module-level state
@@ -169,10 +169,10 @@ def _r2(model, res, c):
         # writes to the instance's own attributes are what constructors and set_* are for
         if own and ev.kind in ('store', 'call', 'delete', 'iop'):
             # ... unless the attribute itself is shared (handled in (a)/(b))
-            res.ob('R2', fmt(ev.key), 'writes own instance state: %s' % ev.detail, True)
+            res.ob(R, fmt(ev.key), 'writes own instance state: %s' % ev.detail, True)
             continue
-        res.ob('R2', fmt(ev.key), '%s %s' % (ev.kind, ev.detail), False, desc)
-        res.violation('R2', '%s:%s:shared-write:%s' % (ev.key[0], ev.key[1], purity._norm(ev.detail)), ev.where(),
+        res.ob(R, fmt(ev.key), '%s %s' % (ev.kind, ev.detail), False, desc)
+        res.violation(R, '%s:%s:shared-write:%s' % (ev.key[0], ev.key[1], purity._norm(ev.detail)), ev.where(),
                       'constructing a parser or registering a binding writes state shared by all parsers (%s via %s)' % (desc, ev.detail),
                       func=ev.key[1])
     # (d) mutable defaults on methods of long-lived classes
@@ -183,8 +183,8 @@ def _r2(model, res, c):
                     bad = isinstance(d, (ast.Dict, ast.List, ast.Set)) or (
                         isinstance(d, ast.Call) and (sa.call_name(d) or '') in FRESH_CTORS)
                     if bad:
-                        res.ob('R2', '%s:%s.%s' % (m.name, cls.name, node.name), 'default %s' % src(d), False)
-                        res.violation('R2', '%s:%s.%s:mutable-default' % (m.name, cls.name, node.name), m.where(d),
+                        res.ob(R, '%s:%s.%s' % (m.name, cls.name, node.name), 'default %s' % src(d), False)
+                        res.violation(R, '%s:%s.%s:mutable-default' % (m.name, cls.name, node.name), m.where(d),
                                       'mutable default argument %s is one object shared by every call and every instance' % src(d),
                                       func=cls.name + '.' + node.name)
     # (e) class-level mutable containers on long-lived classes that instances read through self
@@ -195,7 +195,7 @@ def _r2(model, res, c):
                 names = [t.id for t in node.targets if isinstance(t, ast.Name)]
                 for nm in names:
                     assigned = any(a == nm for (cn, a) in stores)
-                    res.ob('R2', '%s:%s.%s' % (m.name, cls.name, nm), 'class-level mutable container', assigned,
+                    res.ob(R, '%s:%s.%s' % (m.name, cls.name, nm), 'class-level mutable container', assigned,
                            'shadowed per instance in __init__' if assigned else 'shared by all instances')
                     if not assigned and (cls.name, nm) in mutated:
                         pass    # reported in (a)
